@@ -14,11 +14,14 @@ def run(rep: Report, tier: str, only=None) -> None:
 		jobs.append(Job('O1.dsn', H, 'dsn_law', {'n': n, 'p': f}, t, 'S', f'first identifier {f!r} (case split), two symbolic identifiers <= {n} over [a b _ 1]: join/elements/elem_counts/left/right/shift/root/parent vs the list of elements', ('overlapping_names',)))
 		jobs.append(Job('O3.module_dsn', H, 'module_dsn_law', {'n': n, 'p': f}, t, 'S', f'module path p.q and local names r, p (p = {f!r} per case, q, r symbolic <= {n}): ModuleDSN.full_joined/parsed/expanded/expand_elements/join/identify', ('module_dsn',)))
 		jobs.append(Job('O4.entry_path', H, 'entry_path_law', {'n': n, 'p': f}, t, 'S', f'three tags (first {f!r} per case, two symbolic <= {n}): EntryPath.join/elements/first/last/parent_tag/identify/shift/contains/joined', ('entry_path',)))
+	jobs.append(Job('O5.pipeline', 'harness.c08_pipeline', 'enum_renaming_law', {'template': 1}, t, 'F', 'enum template (three members, .value references, member reference) under 54 renamings (members that are suffixes / prefixes of each other, reordered spellings)', ('renaming',)))
+	for g0 in range(16):
+		jobs.append(Job('O5.pipeline', 'harness.c08_pipeline', 'renaming_law', {'g0': g0}, t, 'F', 'template program (classes, field, methods, class method factory, enum, function, lambda + closure capturing two parameters, inferred locals) under 576 renamings from adversarial name pools (prefix / suffix / order / underscore relations): transpile(r(P)) == r(transpile(P)) through the real pipeline', ('renaming',)))
 	if only:
 		jobs = [j for j in jobs if j.obligation in only or j.obligation.split('.')[0] in only]
 	rep.functions = ['DSN.join/elements/elem_counts/left/right/shift/root/parent/relativefy', 'ModuleDSN.full_joined/local_joined/parsed/expanded/expand_elements/identify/join', 'EntryPath.join/identify/elements/first/last/parent_tag/shift/contains/joined/relativefy']
 	rep.bounds = {'identifiers': f'first identifier from a case split ({len(firsts)} values), two symbolic identifiers of length <= {n} over [a b _ 1] (first character not a digit); the solver may make one a prefix / suffix / infix / copy of another'}
 	rep.assumptions = ['relativefy: the prefix text does not recur in the remainder (a measured deviation outside every caller\'s domain, DESIGN.md C08)']
-	rep.outside = ['the metamorphic relation transpile(r(P)) == r(transpile(P)) over generated programs (pipeline)', 'PatternParser / CppViewHelper regex helpers (CrossHair\'s regex model did not close on them within budget)', 'keyword / builtin collisions, i18n alias tables']
+	rep.outside = ['the metamorphic relation beyond the one template program of O5', 'PatternParser / CppViewHelper regex helpers (CrossHair\'s regex model did not close on them within budget)', 'keyword / builtin collisions, i18n alias tables']
 	rep.run_jobs(jobs)
 	rep.check_recorded()
